@@ -1,0 +1,25 @@
+//go:build verif
+
+package dnsserver
+
+import "github.com/facebookincubator/dns/dnsrocks/db"
+
+// Hooks for the verification harness (build tag "verif"); never compiled into
+// production binaries.
+
+// VerifYield, when set, is called at named points of ServeDNSWithRCODE and
+// Reload so that a scheduler can park a query or a reload between its steps.
+// It must be set before any query or reload starts.
+var VerifYield func(point string)
+
+func verifYield(point string) {
+	if f := VerifYield; f != nil {
+		f(point)
+	}
+}
+
+// VerifSetDB installs an already opened DB (e.g. one wrapping an instrumented
+// backend) as the served database, like Load does.
+func (h *FBDNSDB) VerifSetDB(d *db.DB) {
+	h.dnsdb = d
+}
